@@ -84,6 +84,10 @@ ExpectedReloc == [i \in 1..20 |-> IF i <= 8 THEN <<114, 111, 47 + i>>
                                   ELSE <<108, 97, 47 + i - 16>>]
 RelocOk(r) == r.reloc = ExpectedReloc
 
+\* ---- the Iterator surface of args_os() / args(): scripts of calls on one iterator (ArgsIter.tla) --------
+AI == INSTANCE ArgsIter
+BadIters(r) == {j \in 1..Len(r.iters) : AI!FirstBad(r.kargv, r.iters[j].v, r.iters[j].script, r.iters[j].obs) # 0}
+
 \* the harness did what it was asked to (not part of the verdict: a failure here is a tool error)
 \* (an empty argument vector is replaced by [""] by kernels >= 5.18 and passed as it is by older ones)
 HarnessOk(r) == /\ r.kargv = r.argv \/ (r.argv = <<>> /\ r.kargv = << <<>> >>)
@@ -94,11 +98,16 @@ Clauses(r) ==
     ELSE (IF ArgsOk(r) THEN {} ELSE {"args"}) \cup (IF BadLook(r) = {} THEN {} ELSE {"lookup"})
          \cup (IF AuxOk(r) THEN {} ELSE {"aux"}) \cup (IF ClockOk(r) THEN {} ELSE {"clock"})
          \cup (IF StackOk(r) THEN {} ELSE {"stack"}) \cup (IF RelocOk(r) THEN {} ELSE {"reloc"})
+         \cup (IF BadIters(r) = {} THEN {} ELSE {"iter"})
 \* one pass: a verdict per record, then the rejected ones (SelectSeq) - linear in the trace
 Verdict(i) == LET r == Rec[i]
                   ok == r.status = "exit0"
               IN [i |-> i, c |-> SetToSeq(Clauses(r)),
                   keys |-> IF ok THEN SetToSeq(BadLook(r)) ELSE <<>>,
+                  iters |-> IF ok THEN [j \in 1..Cardinality(BadIters(r)) |->
+                                          LET b == SetToSeq(BadIters(r))[j]
+                                          IN <<b, AI!FirstBad(r.kargv, r.iters[b].v, r.iters[b].script, r.iters[b].obs)>>]
+                            ELSE <<>>,
                   h |-> ~ok \/ (HarnessOk(r) /\ StackHarnessOk(r))]
 All == [i \in 1..Len(Rec) |-> Verdict(i)]
 ASSUME PrintT(<<"JUDGED", ToJson([n |-> Len(Rec),
